@@ -1,5 +1,12 @@
-(** C16 (pub/sub router) — property theorems. *)
-Require Import Selium.Base Selium.PubSub Selium.PubSubSpec Selium.P_PubSub.
+(** C16 — property theorems (statements and [exact]s only).
+    PARTIAL: "finishes in bounded time" is split into (proved) once the registration channel is
+    closed a poll of either router returns Pending only because a sink answered Pending in that
+    step -- so with subscribers / requestors that accept data every poll returns Ready -- and
+    (checked on implementation traces, not proved) that a poll does return, i.e. performs bounded
+    work (obs_c09_bounded_ok, spin guard); that the future is polled again after close is
+    c09_*_never_parks_unarmed plus the wake-bit correspondence. *)
+Require Import Selium.Base Selium.PubSub Selium.PubSubSpec Selium.P_PubSub Selium.P_PubSubPark.
+Require Import Selium.ReqRep Selium.ReqRepSpec Selium.P_ReqRep Selium.P_ReqRepOrder.
 Open Scope N_scope.
 
 (** whenever the router's future completes (only possible after the registration channel was
@@ -8,6 +15,21 @@ Open Scope N_scope.
 Theorem c16_ps_flushed_at_completion : forall tr s, run init tr = Some s -> c16_state_ok s = true.
 Proof. exact run_c16. Qed.
 Print Assumptions c16_ps_flushed_at_completion.
+
+(** once closed, the pub/sub router returns Pending only when a subscriber sink answered Pending
+    in that very step: [step s e = Some s'] ends a poll with Pending only for such an [e] *)
+Theorem c16_ps_closed_pending_only_from_sinks : forall tr s e s',
+  run init tr = Some s -> closed s = true -> step s e = Some s' -> ctl s' = PReturn false ->
+  sink_pending e = true.
+Proof. exact ps_closed_pending_only_from_sinks. Qed.
+Print Assumptions c16_ps_closed_pending_only_from_sinks.
+
+(** the same for the request/reply router *)
+Theorem c16_rr_closed_pending_only_from_sinks : forall tr s e s',
+  rrun rinit tr = Some s -> rclosed s = true -> rstep s e = Some s' -> rctl s' = RReturn false ->
+  rr_pending_answer e = true.
+Proof. exact rr_closed_pending_only_from_sinks. Qed.
+Print Assumptions c16_rr_closed_pending_only_from_sinks.
 
 Example c16_example :
   exists s, run init
